@@ -170,6 +170,24 @@ class Env:
         v = int(self._conc(name, -(1 << (width - 1)), (1 << (width - 1)) - 1, integer=True))
         return v
 
+    def string(self, name, maxlen, alphabet):
+        """string of length <= maxlen over the given alphabet."""
+        if self.symbolic:
+            v = z3.String(name)
+            ctx().inputs[name] = v
+            ctx().pc.append(z3.Length(v) <= maxlen)
+            allowed = z3.Star(z3.Union(*[z3.Re(ch) for ch in alphabet]))
+            ctx().pc.append(z3.InRe(v, allowed))
+            return core.SymStr(v, maxlen)
+        if name in self.values:
+            s = self.values[name]
+        elif self.rng is not None:
+            s = ''.join(self.rng.choice(alphabet) for _ in range(self.rng.randint(0, maxlen)))
+        else:
+            s = ''
+        self.used[name] = s
+        return s
+
     def reals(self, name, n, lo=None, hi=None):
         return [self.real(f'{name}[{i}]', lo, hi) for i in range(n)]
 
@@ -299,6 +317,13 @@ class Env:
                 # discharge equalities in sum-of-monomials normal form (DESIGN §1.4)
                 n = z3.simplify(core.tz(d.n), som=True)
                 return SB(n == 0)
+            if isinstance(d, R):
+                # both sides concrete: they may carry libm-evaluated constants, compare like doubles
+                ra, rb = R.of(a), R.of(b)
+                if ra.concrete and rb.concrete:
+                    fa, fb = float(ra.n), float(rb.n)
+                    return abs(fa - fb) <= self._tol(fa, fb, scale)
+                return d.n == 0
             return a == b
         if isinstance(a, (bool, str)) or isinstance(b, (bool, str)):
             return a == b
@@ -306,13 +331,28 @@ class Env:
             return a == b
         return abs(a - b) <= self._tol(a, b, scale)
 
+    def _both_conc(self, a, b):
+        try:
+            a, b = R.of(a), R.of(b)
+        except TypeError:
+            return None
+        if a.concrete and b.concrete:
+            return float(a.n), float(b.n)
+        return None
+
     def le(self, a, b, scale=None):
         if self.impl == 'model':
+            c = self._both_conc(a, b)
+            if c is not None:
+                return c[0] <= c[1] + self._tol(c[0], c[1], scale)
             return a <= b
         return a <= b + self._tol(a, b, scale)
 
     def lt(self, a, b, scale=None):
         if self.impl == 'model':
+            c = self._both_conc(a, b)
+            if c is not None:
+                return c[0] < c[1] + self._tol(c[0], c[1], scale)
             return a < b
         return a < b + self._tol(a, b, scale)
 
@@ -469,6 +509,8 @@ def model_values(model, inputs):
             vals[name] = z3.is_true(mv)
         elif z3.is_bv_value(mv):
             vals[name] = mv.as_signed_long()
+        elif z3.is_string_value(mv):
+            vals[name] = mv.as_string()
         else:
             vals[name] = str(mv)
     return vals
